@@ -115,3 +115,24 @@ Proof.
   split; [vm_compute; reflexivity|]. split; [vm_compute; reflexivity|]. split; [vm_compute; reflexivity|].
   split; reflexivity.
 Qed.
+
+(* non-vacuity of the hypotheses of filtered_no_derivers *)
+Definition e_f : sweep :=
+  plain [(s "a", [SI 1; SI 2]); (s "b", [SI 3; SI 4]); (s "c", [SI 5; SI 6; SI 7])]
+        (Some [DTup [s "a"; s "b"]; DStr (s "c")]).
+
+Lemma filtered_example_hyps :
+  wf_sweep e_f = true /\ in_item_order e_f = true
+  /\ opt_keys (consts e_f) = [] /\ excl e_f = None /\ ders e_f = None
+  /\ Forall (fun kv => NoDup (snd kv)) (items e_f)
+  /\ [s "c"; s "a"] <> [] /\ NoDup [s "c"; s "a"] /\ incl [s "c"; s "a"] (concat (groups e_f))
+  /\ Forall (fun g => 0 < glen (items e_f) g) (groups e_f)
+  /\ exists l, generate e_f = Ok l /\ length l = 6.
+Proof.
+  split; [reflexivity|]. split; [reflexivity|]. split; [reflexivity|]. split; [reflexivity|]. split; [reflexivity|].
+  split.
+  { repeat constructor; cbn; intros H; repeat (destruct H as [H|H]; try discriminate); auto. }
+  split; [discriminate|]. split; [apply nodup_str_NoDup; reflexivity|].
+  split; [intros k [<-|[<-|[]]]; vm_compute; tauto|].
+  split; [repeat constructor|]. eexists. split; vm_compute; reflexivity.
+Qed.
